@@ -872,12 +872,69 @@ def run_c01(ctx):
                           "rel": ["num", Fr(0)], "abs": ["num", Fr(1, 4)], "meta": {"mode": "large", "place": "out", "j": j}})
     run_exact_stream(ctx, cases, "exact")
     long_array_stream(ctx, "c01", ["float"], 30 if ctx.tier == "quick" else 1000)
+    f32_numpy_tolerance_stream(ctx, 300 if ctx.tier == "quick" else 8000)
     run_float_stream(ctx, n_float)
     ctx.rule = ("exact stream: dyadic inputs on which every floating-point operation of the implementation is exact "
                 "(checked per case), one deviating entry placed on/inside/outside the boundary of the applicable "
                 "tolerance (scalar, per-component, t*max, default eps), shapes (n,),(n,1),(n,k),(n,k,k), n in 0..17 and "
                 "1000; float stream: arbitrary finite doubles through the bit-exact PrimFloat kernel. non-trivial = the "
                 "two arrays differ in a value or in shape; distinct = hash of the canonical case")
+
+
+def f32_numpy_tolerance_stream(ctx, n):
+    """single-precision fields compared under tolerances handed over as numpy values (np.float64 scalars or per-component
+    arrays, as they come out of a computation), the tolerance set a hair (2^-30 relative) below or above the deviation: the
+    threshold rel*max(|a|,|b|) is a double-precision number and must not be rounded to the precision of the data before it is
+    compared with |a-b|.  The verdict is judged in exact arithmetic (the margin is far above double-precision rounding)."""
+    from fieldcompare import predicates as P
+    rng = ctx.rng
+    for it in range(n):
+        k = rng.choice([None, None, 3])
+        L = rng.randint(1, 5)
+        shape = (L,) if k is None else (L, k)
+        size = int(np.prod(shape))
+        a = np.array([np.float32(rng.choice([1.0, 1.5, 3.0, 0.75, 1024.0, 6.0e-3]) * rng.choice([1, -1])) for _ in range(size)],
+                     dtype=np.float32).reshape(shape)
+        b = a.copy()
+        j = rng.randrange(size)
+        fa = a.reshape(-1)[j]
+        # neighbouring single-precision numbers: the deviation is a few units in the last place of the data
+        steps = rng.choice([1, 1, 2, 3])
+        fb = fa
+        for _ in range(steps):
+            fb = np.nextafter(fb, np.float32(0.0) if rng.random() < 0.5 else np.float32(np.sign(fa) * np.inf), dtype=np.float32)
+        b.reshape(-1)[j] = fb
+        d = abs(Fr(float(fa)) - Fr(float(fb)))
+        m = max(abs(Fr(float(fa))), abs(Fr(float(fb))))
+        side = rng.choice(["just_below", "just_above"])
+        factor = Fr(2 ** 30 - 1, 2 ** 30) if side == "just_below" else Fr(2 ** 30 + 1, 2 ** 30)
+        which = rng.choice(["rel", "rel", "abs"])
+        rel_v = float(d / m * factor) if which == "rel" else 0.0
+        abs_v = float(d * factor) if which == "abs" else 0.0
+        form = rng.choice(["np.float64", "array"]) if k is not None else "np.float64"
+        if form == "array":
+            rel_t = np.full((k,), rel_v, dtype=np.float64)
+            abs_t = np.full((k,), abs_v, dtype=np.float64)
+        else:
+            rel_t, abs_t = np.float64(rel_v), np.float64(abs_v)
+        want = d <= max(Fr(rel_v) * m, Fr(abs_v))
+        canon = {"f32_numpy_tolerance": {"shape": list(shape), "entry": j, "a": float(fa), "b": float(fb), "rel_tol": rel_v,
+                                         "abs_tol": abs_v, "tolerance_given_as": form, "side": side}}
+        res = {}
+        for nm, x, y in (("ab", a, b), ("ba", b, a)):
+            try:
+                res[nm] = bool(P.FuzzyEquality(rel_tol=rel_t, abs_tol=abs_t)(x, y))
+            except Exception as e:  # noqa: BLE001
+                res[nm] = f"raised {type(e).__name__}: {e}"
+        ctx.case(canon, True, sample={"case": canon, "impl": res, "statement": want})
+        ctx.count(f"c01:float32 data, tolerance as {form}, {side}")
+        ctx.tie("T2 float32 data under numpy-typed tolerances: implementation = exact formula")
+        for nm in ("ab", "ba"):
+            if res[nm] is not want:
+                ctx.violation("E4", f"c01: float32 data, tolerance given as {form} {side} the deviation: verdict {res[nm]}, the formula "
+                                    f"gives {want}", canon, impl=res)
+                break
+        ctx.traces_validated += 1
 
 
 def run_c09(ctx):
@@ -894,6 +951,16 @@ def run_c09(ctx):
                           "b": {"dtype": dt, "shape": [2], "vals": [0, k + 1]},
                           "rel": ["num", tol], "abs": ["num", tol], "meta": {"mode": "c09_edges"}})
     cases += gen_exact_cases(rng, 150 if q else 4000, lambda: gen_congruent_int_case(rng))
+    # directed: two integer types of one width whose memory holds the same bytes for different values (a negative number and
+    # its two's complement read as unsigned), next to equal entries
+    for w, sdt, udt in ((8, "int8", "uint8"), (16, "int16", "uint16"), (32, "int32", "uint32"), (64, "int64", "uint64")):
+        for neg in (-1, -2, -(2 ** (w - 1))):
+            for tol in (Fr(0), Fr(2) ** 70):
+                for flip in (False, True):
+                    A = {"dtype": sdt, "shape": [3], "vals": [7, neg, 0]}
+                    B = {"dtype": udt, "shape": [3], "vals": [7, neg + 2 ** w, 0]}
+                    cases.append({"pred": "default", "a": B if flip else A, "b": A if flip else B,
+                                  "rel": ["num", tol], "abs": ["num", tol], "meta": {"mode": "c09_same_bytes_other_type"}})
     run_exact_stream(ctx, cases, "c09")
     shared_predicate_stream(ctx, cases, "c09")
     long_array_stream(ctx, "c09", ["int64", "int32", "uint8", "str"], 40 if q else 1500)
@@ -1270,6 +1337,7 @@ def run_c10(ctx):
         t = Fr(rng.choice([1, 3, 5]), 2 ** rng.randint(0, 12))
         comp = rng.random() < 0.4
         run_scaled_case(ctx, t, comp, dt, shape, a, b, exprs, vals)
+    default_base_reuse_stream(ctx, 60 if q else 1500)
     outs = ctx.coq_eval(HEADER, exprs, name="scaled")
     for want, out in zip(vals, outs):
         got = [Fr(x[0], x[1]) for x in out]
@@ -1280,6 +1348,59 @@ def run_c10(ctx):
     ctx.rule = ("triples (A,B,tol1<=tol2) from the C01/C09 generators plus integer arrays given directly to the fuzzy "
                 "predicates; P(A,A), P(B,B), P(A,B), P(B,A) and P at the larger tolerance are evaluated on implementation and "
                 "model; fresh vs reused predicate objects; ScaledTolerance values. non-trivial = arrays differ")
+
+
+def default_base_reuse_stream(ctx, n):
+    """ONE ScaledTolerance() created without base tolerance (the default: machine epsilon of the fields' common float type, zero
+    for integers), evaluated on a sequence of fields of different numeric types, directly and inside one FuzzyEquality: every
+    value is default(types of THIS pair) * max|value| and every verdict the one of a fresh object — whatever came before"""
+    from fieldcompare import predicates as P
+    rng = ctx.rng
+    EPS_ = {"float64": 2.0 ** -52, "float32": 2.0 ** -23}
+    for it in range(n):
+        tol = P.ScaledTolerance()
+        pred = P.FuzzyEquality(abs_tol=P.ScaledTolerance(), rel_tol=0.0)
+        seq = [rng.choice(["int32", "float64", "float32", "int64", "float64"]) for _ in range(rng.randint(2, 5))]
+        hist = []
+        for dt in seq:
+            L = rng.randint(1, 4)
+            if dt.startswith("int"):
+                a = np.array([rng.randint(-1000, 1000) for _ in range(L)], dtype=dt)
+                b = a.copy()
+            else:
+                a = np.array([rng.randint(1, 64) / 8.0 * rng.choice([1, -1]) * 2.0 ** rng.randint(-3, 6) for _ in range(L)], dtype=dt)
+                b = a.copy()
+            mx = float(max(np.max(np.abs(a.astype(float))), np.max(np.abs(b.astype(float)))))
+            base = 0.0 if dt.startswith("int") else EPS_[dt]
+            want_val = base * mx
+            # a deviation of half / twice the tolerance at the entry of largest magnitude (floats only)
+            verdicts = None
+            if not dt.startswith("int"):
+                j = int(np.argmax(np.abs(a)))
+                b_in, b_out = a.copy(), a.copy()
+                ulp = np.spacing(np.abs(a[j]))           # = eps(type) * 2^floor(log2|a_j|) <= base * mx
+                b_out[j] = a[j] + np.sign(a[j]) * 4 * ulp
+                verdicts = (bool(pred(a, a.copy())), bool(pred(a, b_out)),
+                            bool(P.FuzzyEquality(abs_tol=P.ScaledTolerance(), rel_tol=0.0)(a, b_out)))
+            hist.append(dt)
+            canon = {"default_base_reuse": {"types_so_far": list(hist), "values": [float(x) for x in a]}}
+            try:
+                got = float(np.max(np.asarray(tol(a, b), dtype=float)))
+            except Exception as e:  # noqa: BLE001
+                ctx.violation("E4", f"ScaledTolerance() raised {type(e).__name__}: {e}", canon)
+                break
+            ctx.case(canon, len(hist) > 1, sample={"case": canon, "value": got, "statement": want_val})
+            ctx.count(f"c10:default base tolerance reused:{dt} after {hist[-2] if len(hist) > 1 else 'nothing'}")
+            ctx.tie("T2 ScaledTolerance() default base over a sequence of field types")
+            if abs(got - want_val) > 1e-12 * max(want_val, 1e-300):
+                ctx.violation("E4", f"ScaledTolerance() used for {hist}: value {got!r} for the last pair, the statement gives "
+                                    f"eps(type) * max|value| = {want_val!r}", canon)
+                break
+            if verdicts is not None and (verdicts[0] is not True or verdicts[1] != verdicts[2]):
+                ctx.violation("E4", f"a FuzzyEquality holding ScaledTolerance() and used for {hist} answers {verdicts[:2]} (identical, "
+                                    f"4 ulp off) where a fresh one answers (True, {verdicts[2]})", canon)
+                break
+            ctx.traces_validated += 1
 
 
 def run_scaled_case(ctx, t, comp, dt, shape, a, b, exprs, vals):
